@@ -94,6 +94,11 @@ Definition mstep (s : mst) (e : ev) : mst :=
 
 Definition mrun (s : mst) (t : list ev) : mst := fold_left mstep t s.
 
+(* the trace of a call in which the last event of [pre] raises: the prefix, then the __exit__ of the no_grad block
+   that is open at that point (the `with` statement runs it while the exception propagates) *)
+Definition unwind (m : mst) (pre : list ev) : list ev :=
+  pre ++ (if Nat.eqb (mdepth (mrun m pre)) 0 then [] else [NoGradExit]).
+
 (* the observation of the correspondence: (model.training, grad mode) in force when each event happens *)
 Fixpoint annot (s : mst) (t : list ev) : list (ev * (bool * bool)) :=
   match t with
